@@ -418,3 +418,26 @@ func pathsTo(b *ssa.BasicBlock, limit int) (out []pathInfo, complete bool) {
 	walk(start, nil, nil, map[*ssa.BasicBlock]bool{})
 	return out, complete
 }
+
+// pathDNFDeep is pathDNF for a block that sits below a chain of single-predecessor blocks (conditions joined with &&
+// after a disjunction): the disjunction is enumerated at the nearest ancestor that has several predecessors, and the
+// conditions of the chain below it - which all dominate b - are appended to every disjunct.
+func pathDNFDeep(b *ssa.BasicBlock) []string {
+	d := b
+	for d != nil && len(d.Preds) <= 1 {
+		d = d.Idom()
+	}
+	if d == nil || d == b {
+		return pathDNF(b)
+	}
+	upper := pathDNF(d)
+	if len(upper) == 0 || len(b.Instrs) == 0 {
+		return pathDNF(b)
+	}
+	chain := guardTexts(guardsOf(b.Instrs[0]))
+	out := make([]string, 0, len(upper))
+	for _, u := range upper {
+		out = append(out, u+" && "+chain)
+	}
+	return out
+}
